@@ -241,7 +241,20 @@ func Generate(r *rand.Rand, sz Size) *Model {
 			t.Notation = "jsight"
 			s := &S{K: "obj"}
 			for q := 0; q < 1+r.Intn(3); q++ {
-				s.Props = append(s.Props, Prop{fmt.Sprintf("b%d", q), &S{K: "str", Lit: g.word(), Note: g.note()}})
+				var v *S
+				switch {
+				case len(g.refTypes) > 1 && r.Intn(3) == 0:
+					a, b := r.Intn(len(g.refTypes)), r.Intn(len(g.refTypes))
+					if a != b {
+						v = &S{K: "or", Or: []string{g.refTypes[a], g.refTypes[b]}, Sep: []string{" | ", "|", "  |  ", " |"}[r.Intn(4)]}
+					}
+				case len(g.refTypes) > 0 && r.Intn(4) == 0:
+					v = &S{K: "ref", Ref: g.refTypes[r.Intn(len(g.refTypes))]}
+				}
+				if v == nil {
+					v = &S{K: "str", Lit: g.word(), Note: g.note()}
+				}
+				s.Props = append(s.Props, Prop{fmt.Sprintf("b%d", q), v})
 			}
 			t.Schema = s
 			g.objTypes = append(g.objTypes, t.Name)
